@@ -62,8 +62,21 @@ where
     let (psk_raw, ppk_raw) = crate::gen_paserk::pke_pair(be);
     let psk = Arc::new(key_of::<V, paseto_core::version::PkeSecret>(&psk_raw).map_err(|_| "pke-key".to_string())?);
     let ppk = Arc::new(key_of::<V, paseto_core::version::PkePublic>(&ppk_raw).map_err(|_| "pke-key".to_string())?);
+    // key rotation: several *different* keys, each parsed afresh (new allocation), used and dropped again and again; the
+    // reference public key / id of each was computed once, sequentially, before any thread started
+    let pool: Arc<Vec<(Vec<u8>, Vec<u8>, String)>> = Arc::new(
+        (0..if be == Be::V1 { 3 } else { 6 })
+            .map(|_| {
+                let raw = crate::gen_tok::gen_secret(be);
+                let k = key_of::<V, Secret>(&raw).expect("pool key");
+                let p = k.public_key();
+                (raw, p.expose_key().as_raw_bytes().to_vec(), k.id().to_string())
+            })
+            .collect(),
+    );
     let mut handles = vec![];
     for t in 0..threads {
+        let pool = pool.clone();
         let (lk, sk, pk, bad_tok) = (lk.clone(), sk.clone(), pk.clone(), bad_tok.clone());
         let (expect_tok, expect_sig, psk, ppk) = (expect_tok.clone(), expect_sig.clone(), psk.clone(), ppk.clone());
         handles.push(std::thread::spawn(move || -> (usize, usize) {
@@ -71,7 +84,25 @@ where
             let (mut ops, mut bad) = (0usize, 0usize);
             for i in 0..iters {
                 let msg = r.bytes_in(0, 40);
-                match r.below(10) {
+                match r.below(11) {
+                    10 => {
+                        if be != Be::V1 || i % 8 == 0 {
+                            let (raw, pk_ref, id_ref) = &pool[r.below(pool.len() as u64) as usize];
+                            let good = (|| {
+                                let k = key_of::<V, Secret>(raw).ok()?;
+                                let p = k.public_key();
+                                if p.expose_key().as_raw_bytes() != &pk_ref[..] || &k.id().to_string() != id_ref { return None; }
+                                let tok = UnsealedToken::<V, Public, Raw>::new(Raw(msg.clone())).sign(&k).ok()?.to_string();
+                                drop(k);
+                                drop(p);
+                                // verified under the public key re-parsed from the reference bytes
+                                let p2 = key_of::<V, Public>(pk_ref).ok()?;
+                                let u = SealedToken::<V, Public, Raw>::from_str(&tok).ok()?.verify(&p2, &nv()).ok()?;
+                                Some(u.claims.0 == msg)
+                            })();
+                            if good != Some(true) { bad += 1; }
+                        }
+                    }
                     7 => {
                         // deterministic operations give exactly the sequential result
                         let t = UnsealedToken::<V, Local, Raw>::new(Raw(b"deterministic".to_vec())).dangerous_seal_with_nonce(&lk, &[], vec![7u8; nonce_len]).ok().map(|t| t.to_string());
